@@ -30,7 +30,7 @@ SEEDS = [
   "c03_mpsc_np_producer_root_o0_d1", "CAUGHT-AFTER-STRENGTHENING", "the quick tier only had the two-producer harness at the block's last slot, where the tail is locked and no later push can complete; the slot-0 instance (existing, thorough) refutes it in 86 s and was moved into the quick tier"),
  ("c04-2", "C04", "spmc pop: the bit-63 'switching' flag is no longer stripped from the CAS comparand",
   "a second consumer's pop while another consumer is between its head->head|bit63 CAS and the following head.store (block switch): the same task is handed out twice",
-  "c04_spmc_np_stealer_root_k3_d1", "SEE-NOTE", "stalled-stealer harness (thorough tier, needs 16-24 GB); result recorded below after the run with the raised memory cap"),
+  "c04_spmc_np_stealer_root_k3_d1", "CAUGHT (thorough tier)", "refuted 'a task was obtained twice' plus use-after-free dereferences in 7 min / 24 GB by the stalled-stealer harness, which is in the thorough tier only (too heavy for the quick tier); the runner first mis-reported the run as inconclusive because CBMC leaves the other checks undetermined after a fatal pointer failure - classification order fixed"),
  ("c07-1", "C07", "spsc drop_chan: wait_co.take() moved before channels.store(0)",
   "the receiver's registration and re-check both land between the sender's take() and its store: nobody is woken",
   "c07_spsc_last_sender_drop_vs_registering_receiver", "CAUGHT-AFTER-STRENGTHENING", "receiver-root harness cannot see it (the receiver's registration would have to land inside the sender's operation although recv began earlier); added the twin with the drop as root and the receiver's real Park::subscribe landing at any atomic step of drop_chan (7 s)"),
